@@ -60,23 +60,23 @@ type zvwRTool struct {
 }
 
 type zvwRGen struct {
-	Kind    string `json:"kind"` // "case" | "tool" | "hist"
-	I       int    `json:"i"`
-	R       int    `json:"r"`
-	Seed    int64  `json:"seed"`
+	Kind    string    `json:"kind"` // "case" | "tool" | "hist"
+	I       int       `json:"i"`
+	R       int       `json:"r"`
+	Seed    int64     `json:"seed"`
 	Case    *zvwRCase `json:"case,omitempty"`
 	Tool    *zvwRTool `json:"tool,omitempty"`
-	HistLen int    `json:"histlen,omitempty"`
+	HistLen int       `json:"histlen,omitempty"`
 }
 
 type zvwRPlan struct {
 	Cases   []zvwRCase `json:"cases"`
 	Tools   []zvwRTool `json:"tools"`
-	Random  int     `json:"random"`
-	HistLen int     `json:"histlen"`
-	Reps    int     `json:"reps"`
+	Random  int        `json:"random"`
+	HistLen int        `json:"histlen"`
+	Reps    int        `json:"reps"`
 	Replays []zvwRGen  `json:"replays"`
-	Workers int     `json:"workers"`
+	Workers int        `json:"workers"`
 }
 
 type zvwRLine struct {
@@ -87,23 +87,23 @@ type zvwRLine struct {
 }
 
 type zvwRLabel struct {
-	Op      string   `json:"op"`
-	Code    int      `json:"code"`
-	Method  string   `json:"method"`
-	Ncalls  int      `json:"ncalls"`
-	Argeq   bool     `json:"argeq"`
-	Reseq   bool     `json:"reseq"`
-	Aerr    bool     `json:"aerr"`
-	Cerr    bool     `json:"cerr"`
-	Pan     bool     `json:"pan"`
-	Remote  bool     `json:"remote"`
-	Toolran bool     `json:"toolran"`
-	Lines   []zvwRLine  `json:"lines"`
-	Slots   []string `json:"slots"`
-	Exit    int      `json:"exit"`
-	Steq    bool     `json:"steq"`
-	Mode    string   `json:"mode"`
-	Shape   string   `json:"shape"` // scripted result of the served agent: normal | both (result AND error) | neither
+	Op      string     `json:"op"`
+	Code    int        `json:"code"`
+	Method  string     `json:"method"`
+	Ncalls  int        `json:"ncalls"`
+	Argeq   bool       `json:"argeq"`
+	Reseq   bool       `json:"reseq"`
+	Aerr    bool       `json:"aerr"`
+	Cerr    bool       `json:"cerr"`
+	Pan     bool       `json:"pan"`
+	Remote  bool       `json:"remote"`
+	Toolran bool       `json:"toolran"`
+	Lines   []zvwRLine `json:"lines"`
+	Slots   []string   `json:"slots"`
+	Exit    int        `json:"exit"`
+	Steq    bool       `json:"steq"`
+	Mode    string     `json:"mode"`
+	Shape   string     `json:"shape"` // scripted result of the served agent: normal | both (result AND error) | neither
 }
 
 type zvwRSt struct {
@@ -114,9 +114,9 @@ type zvwRRec struct {
 	Ev   string      `json:"ev"`
 	Fam  string      `json:"fam"`
 	Tid  string      `json:"tid"`
-	Pre  *zvwRSt        `json:"pre,omitempty"`
-	E    *zvwRLabel     `json:"e,omitempty"`
-	Post zvwRSt         `json:"post"`
+	Pre  *zvwRSt     `json:"pre,omitempty"`
+	E    *zvwRLabel  `json:"e,omitempty"`
+	Post zvwRSt      `json:"post"`
 	Info interface{} `json:"info,omitempty"`
 }
 
@@ -170,7 +170,10 @@ func zvwPubBlob(k ssh.PublicKey) []byte {
 	return k.Marshal()
 }
 
-func (r *zvwRecAgent) List() ([]*agent.Key, error) { s := r.rec("List", nil, nil); return s.keys, s.err }
+func (r *zvwRecAgent) List() ([]*agent.Key, error) {
+	s := r.rec("List", nil, nil)
+	return s.keys, s.err
+}
 func (r *zvwRecAgent) Sign(key ssh.PublicKey, data []byte) (*ssh.Signature, error) {
 	s := r.rec("Sign", map[string][]byte{"key": zvwPubBlob(key), "data": data}, nil)
 	return s.sig, s.err
@@ -213,8 +216,10 @@ func (r *zvwRecAgent) Forward(req []byte) ([]byte, error) {
 func (r *zvwRecAgent) AddHardCert(key ssh.PublicKey, comment string) error {
 	return r.rec("AddHardCert", map[string][]byte{"key": zvwPubBlob(key), "comment": []byte(comment)}, nil).err
 }
-func (r *zvwRecAgent) Wait(m byte) error { return r.rec("Wait", nil, map[string]uint64{"w": uint64(m)}).err }
-func (r *zvwRecAgent) Close() error      { return r.rec("Close", nil, nil).err }
+func (r *zvwRecAgent) Wait(m byte) error {
+	return r.rec("Wait", nil, map[string]uint64{"w": uint64(m)}).err
+}
+func (r *zvwRecAgent) Close() error { return r.rec("Close", nil, nil).err }
 func (r *zvwRecAgent) ListSlots() ([]string, error) {
 	s := r.rec("ListSlots", nil, nil)
 	return s.slots, s.err
